@@ -896,10 +896,10 @@ def canonicalise_renames(d):
     return ren
 
 
-def _shift(x, off_l, off_b):
-    """Deep copy of a MIR JSON fragment of the callee with locals and block numbers renumbered."""
+def _shift(x, lmap, off_b):
+    """Deep copy of a MIR JSON fragment of the callee with locals (through lmap) and block numbers renumbered."""
     if isinstance(x, list):
-        return [_shift(v, off_l, off_b) for v in x]
+        return [_shift(v, lmap, off_b) for v in x]
     if not isinstance(x, dict):
         return x
     out = {}
@@ -907,19 +907,44 @@ def _shift(x, off_l, off_b):
     is_term = x.get("k") in ("goto", "switch", "drop", "call", "assert") and ("t" in x or "targets" in x or "otherwise" in x)
     for k, v in x.items():
         if is_place and k == "l":
-            out[k] = v + off_l
+            out[k] = lmap(v)
         elif k == "ix" and isinstance(v, int):
-            out[k] = v + off_l
+            out[k] = lmap(v)
         elif is_term and k in ("t", "unwind", "otherwise") and isinstance(v, int):
             out[k] = v + off_b
         elif is_term and k == "targets":
             out[k] = [[a, bb + off_b] for a, bb in v]
         else:
-            out[k] = _shift(v, off_l, off_b)
+            out[k] = _shift(v, lmap, off_b)
     return out
 
 
-def inline_new_helpers(d, max_blocks=80, rounds=4):
+def _reborrow_source(b, blk_index, arg):
+    """If `arg` is `move _x` where _x's only definition (in the calling block) is a plain reborrow `&[mut] (*_y)` of a
+    reference local _y, return y: the callee's parameter can then simply *be* _y (no extra level of indirection)."""
+    if not isinstance(arg, dict) or arg.get("k") not in ("move", "copy") or arg["place"]["p"]:
+        return None
+    x = arg["place"]["l"]
+    defs = []
+    for bi, blk in enumerate(b["blocks"]):
+        for st in blk.get("stmts", []):
+            if st.get("k") == "assign" and st["lhs"]["l"] == x and not st["lhs"]["p"]:
+                defs.append((bi, st))
+        t = blk.get("term") or {}
+        if t.get("k") == "call" and t["dest"]["l"] == x:
+            defs.append((bi, None))
+    if len(defs) != 1 or defs[0][1] is None or defs[0][0] != blk_index:
+        return None
+    rv = defs[0][1]["rv"]
+    if rv.get("k") == "ref" and rv["place"]["p"] == ["*"] and b["locals"][rv["place"]["l"]]["ty"].startswith("&"):
+        return rv["place"]["l"]
+    if rv.get("k") == "use" and rv["op"].get("k") in ("copy", "move") and not rv["op"]["place"]["p"] and b["locals"][rv["op"]["place"]["l"]]["ty"].startswith("&") \
+            and b["locals"][rv["op"]["place"]["l"]]["ty"] == b["locals"][x]["ty"] and not b["locals"][x]["ty"].startswith("&mut"):
+        return rv["op"]["place"]["l"]
+    return None
+
+
+def inline_new_helpers(d, max_blocks=250, rounds=4):
     """Functions that do not exist in the pinned tree (rules/anchor_sigs.json) and are private, non-trait, non-recursive
     and small are *helpers extracted by a later edit*. Their bodies are inlined at every direct call site (locals and
     blocks renumbered, parameters assigned from the arguments, `return` replaced by a jump to the call's continuation),
@@ -973,11 +998,17 @@ def inline_new_helpers(d, max_blocks=80, rounds=4):
                     continue
                 off_l, off_b = len(b["locals"]), len(b["blocks"])
                 for l in h["locals"]:
-                    nl = copy.deepcopy(l)
-                    nl.pop("name", None) if False else None
-                    b["locals"].append(nl)
+                    b["locals"].append(copy.deepcopy(l))
+                alias = {}
+                for k, a in enumerate(t["args"]):
+                    y = _reborrow_source(b, i, a)
+                    if y is not None and h["locals"][1 + k]["ty"].startswith("&"):
+                        alias[1 + k] = y
+
+                def lmap(v, alias=alias, off_l=off_l):
+                    return alias.get(v, v + off_l)
                 for blk in h["blocks"]:
-                    nb = _shift(blk, off_l, off_b)
+                    nb = _shift(blk, lmap, off_b)
                     tt = nb.get("term")
                     if tt and tt.get("k") == "return":
                         # store the callee's return slot into the destination, then continue after the call
@@ -990,6 +1021,8 @@ def inline_new_helpers(d, max_blocks=80, rounds=4):
                     b["blocks"].append(nb)
                 # parameters := arguments
                 for k, a in enumerate(t["args"]):
+                    if (1 + k) in alias:
+                        continue
                     b["blocks"][i]["stmts"].append({"k": "assign", "lhs": {"l": off_l + 1 + k, "p": [], "ty": h["locals"][1 + k]["ty"]},
                                                     "rv": {"k": "use", "op": copy.deepcopy(a)}, "line": t.get("line", 0), "inlined": cn})
                 b["blocks"][i]["term"] = {"k": "goto", "t": off_b, "line": t.get("line", 0), "inlined_call": cn}
